@@ -990,6 +990,19 @@ def assumed_wrapper(args, meta, lineno, extra=None):
     # optional heredoc: EXTRA preconditions of the wrapper (invariants of the composition that the environment's stub leaves implicit).
     # Only `requires` clauses are accepted; each one is recorded as an assumption of the unit and guarded by a vacuity canary.
     xreq, xens = [], []
+    if "skip" in opts:
+        # clauses of the hand stub that NO abstraction function can discharge (e.g. a history variable): left out of the wrapper
+        # and listed in the evidence as still trusted
+        skip = set(int(x) for x in opts["skip"].split(","))
+        kept, k = [], 0
+        for kind, txt in pieces:
+            if kind == "ensures":
+                k += 1
+                if k in skip:
+                    meta.setdefault("trusted", []).append("NOT implied (still trusted): %s ensures#%d of prelude/%s: %s" % (path, k, pfile, re.sub(r"\s+", " ", txt)[:300]))
+                    continue
+            kept.append((kind, txt))
+        pieces = kept
     if opts.get("selfmut") == "1":
         # the PROVED function takes `&mut self` (lock erasure: it bumps statistics) while the environment's stub takes `&self`:
         # the wrapper takes `&mut self` and every `self` of the assumed clauses reads the PRE-state
